@@ -47,7 +47,7 @@ def step_filter(cx):
         def known_or_request(l):
             if l[0] == "in" and l[2] == frozenset(["Some"]) and match(call("~ProgressTracker::get", ANY, ("field", m, "Message.from")), l[1]):
                 return True
-            if l[0] == "is" and l[2] is False and match(call("~is_response_msg", mt), l[1]):
+            if l[0] == "is" and l[2] is False and match(call(cx.sfx("raw_node::is_response_msg"), mt), l[1]):
                 return True
             return False
         require_all(cx, c, cx.site_key(c, "forward"), "Raft::step is reached only if !is_local_msg(type) and (sender is tracked or !is_response_msg(type))",
